@@ -89,6 +89,12 @@ CHECKS.update({
         "Trusted: tomlkit as TOML reader; the 10-line overlay. Arrays of tables and multi-line values are outside the grammar. One open known finding (inline-table defaults + user sub-table raises).",
         "DESIGN.md 3.4, 4 C20",
     ),
+    "C01": (
+        "exhaustive enumeration of a structured numeric grid of events through the real stores (listing + lookup), exact integer comparison; tiny exhaustive write x mutate x read histories for ownership",
+        "Every event of a grid built around where float arithmetic changes behaviour (binade edges of seconds and of microseconds x ALL 1000 millisecond values x durations at us granularity, ~180 anchors 1970..2100, tz offsets, 34-entry JSON data catalogue) is inserted singly and in bulk into each real backend and read back by listing and by id; instants, durations and data are compared exactly. Ownership: every history write-op (5) x mutated field (5) x read-op (3) x mutated object (passed in / handed out by listing / by lookup), plus metadata/buckets()/create/update dict aliasing histories.",
+        "Trusted: SQLite, Python integer datetime arithmetic. Exhaustive over the grid only (see DESIGN 5); two repaired defects (sqlite float us, memory aliasing).",
+        "DESIGN.md 3.4, 4 C01",
+    ),
 })
 
 NOT_YET = {}
